@@ -362,8 +362,13 @@ impl Gen {
             }
             if wts.remove > 0 && members.len() > 2 {
                 let others: Vec<usize> = members.iter().copied().filter(|m| *m != node).collect();
-                if let Some(v) = self.sched.pick(&others) {
-                    cands.push((wts.remove, Op::RemoveMembers { g, who: vec![*v] }));
+                if !others.is_empty() {
+                    // one removal, or several members removed by one commit
+                    let mut o = others.clone();
+                    self.sched.shuffle(&mut o);
+                    let k = if o.len() >= 2 && self.sched.chance(1, 3) { 2 + self.sched.below((o.len() - 1).min(2) as u64) as usize } else { 1 };
+                    o.truncate(k);
+                    cands.push((wts.remove, Op::RemoveMembers { g, who: o }));
                 }
             }
         }
